@@ -45,7 +45,12 @@ def render(name, ops, k):
         else:
             toks.append(spell_int(v, k // 3 + i))
     seps = [' ', ', ', ',', '\t', '  ,  ']
-    line = name.upper() if k % 11 == 0 else name
+    h = (k * 2654435761) & 0xffffffff          # spelling choices independent of the position of the mnemonic in its table
+    line = name.upper() if h % 11 == 0 else name.capitalize() if h % 11 == 5 else name
+    if len(ops) == 3 and ops[2][0] == 'i' and (h >> 8) % 3 == 1 and name in ('lb', 'lh', 'lw', 'lbu', 'lhu', 'jalr', 'sb', 'sh', 'sw'):
+        # the documented alternative spelling imm(base): loads / jalr `rd, imm(rs1)`, stores `rs2, imm(rs1)`
+        data, base = (toks[0], toks[1]) if name[0] != 's' else (toks[1], toks[0])
+        return '%s %s%s%s(%s)' % (line, data, seps[k % len(seps)], toks[2], base) + ('   # c' if k % 7 == 0 else '')
     for i, t in enumerate(toks):
         line += (' ' if i == 0 else seps[(k + i) % len(seps)]) + t
     if k % 7 == 0:
